@@ -1,5 +1,5 @@
 """C06 — normalisation: one routine on every route, freed tail cleared, run limit agreed by all implementations."""
-from ..rules import tail, convert, normal, fields, eqord, casts, parser, features, summary
+from ..rules import tail, convert, normal, fields, eqord, casts, parser, features, summary, beliefs
 
 EXPL = ("Decides: SA-TAIL: the in-place normaliser stores the new length and clears [new length, previous length) (value-equal start "
         "by linear normal form; the previous length is read before any store), the dual compressor clears from the stored length to the "
@@ -25,6 +25,8 @@ def run(ctx):
         ctx.guard("C06", "capacity", lambda: parser.capacity_after_collapse(ctx, prog))
         ctx.guard("C06", "summaries", lambda: summary.check(ctx, prog, '::normalize|::is_normalized|::clone_normalized|verify_block_hash', floor=2))
         ctx.guard("C06", "path summaries", lambda: summary.check_paths(ctx, prog, '::normalize|::is_normalized|::clone_normalized|verify_block_hash', floor=2))
+        if c in ("dbg", "unsafe_dbg", "strict_dbg"):
+            ctx.guard("C06", "beliefs", lambda: beliefs.census(ctx, prog, beliefs.SCOPES["C06"][0], floor=beliefs.SCOPES["C06"][1]))
         if c == "unchecked":
             ctx.guard("C06", "twins", lambda: features.twins(ctx, prog, scope='FuzzyHashData::<[^>]*>::(new|init)_from_internals|FuzzyHashDualData', floor=2))
         ctx.guard("C06", "casts", lambda: casts.census(ctx, prog, scope='hash::algorithms::normalize_|FuzzyHashData.*::normaliz', floor=1))
